@@ -2,6 +2,7 @@
 C18 — virtual keys obey press / release / tap / toggle and their timed forms.
 -/
 import KVerif.Model.Kanata
+import KVerif.Lemmas.KanataDynQuiet
 namespace KVerif.C18
 open KVerif.L KVerif.K
 
@@ -189,12 +190,13 @@ theorem idle_time_accumulates_only_while_idle (k : KState) (ms : Nat) :
       · cases h
       · injection h with h; subst h
         simp only []
-        split <;> rfl
+        split <;> simp only [(dynRecord_fields _ _ _).2.2.2.2.2.2.1]
     | release code =>
       simp only [handleInputEvent] at h
       split at h
       · cases h
-      · injection h with h; subst h; rfl
+      · injection h with h; subst h
+        simp only [(dynRecord_fields _ _ _).2.2.2.2.2.2.1]
     | tap code =>
       simp only [handleInputEvent] at h
       split at h
